@@ -30,35 +30,11 @@ func (g *Gen) KnownPrograms(startPID, per int) []*ps.Program {
 		p.PID = pid
 		p.Stream = "known:" + stream
 		p.Quirk = quirk
+		p.ModSub = false
 		pid++
 		out = append(out, p)
 	}
 	for i := 0; i < per; i++ {
-		// F2: index-less Slice with SliceEnd.
-		{
-			p := &ps.Program{Kind: "par", Mode: "base", Wrap: i%2 == 0}
-			p.Slices = []*ps.Slice{{S: 0, Idx: false, Ctx: i%2 == 1, Err: true, Len: 2, End: true, EndErr: true, Elem: 0, Form: "lit"}}
-			g.order(p)
-			add(p, "F2", "")
-		}
-		// F3: time imported under an alias.
-		add(g.flowWhere(pid, func(p *ps.Program) bool { return true }), "F3", "timealias")
-		// F4: non-constant Invoke argument.
-		add(g.flowWhere(pid, func(p *ps.Program) bool {
-			for _, t := range p.Tasks {
-				if t.Invoke {
-					return true
-				}
-			}
-			return false
-		}), "F4", "invokevar")
-		// F5: element/parameter assignability checked in the wrong direction.
-		for _, q := range []string{"ifaceelem-refuse", "ifaceelem-accept"} {
-			p := &ps.Program{Kind: "par", Mode: "base", Wrap: i%2 == 0}
-			p.Slices = []*ps.Slice{{S: 0, Idx: true, Err: true, Len: 2, Elem: 7, Form: "lit"}}
-			g.order(p)
-			add(p, "F5", q)
-		}
 		// F6: enclosing variable named err in an argument expression.
 		add(g.flowWhere(pid, func(p *ps.Program) bool { return len(p.Params) > 0 }), "F6", "errvar")
 		// F7: enclosing parameter named time / debug.
@@ -116,13 +92,6 @@ func (g *Gen) KnownPrograms(startPID, per int) []*ps.Program {
 			p.Params, p.Results = []int{t}, []int{t}
 			g.order(p)
 			add(p, "notask", "")
-		}
-		// params2: NEW finding — the same type in two cff.Params options is
-		// accepted and the generated code does not compile.
-		{
-			p := g.flowWhere(pid, func(p *ps.Program) bool { return len(p.Params) > 0 })
-			p.Params = append(p.Params, p.Params[0])
-			add(p, "params2", "params2")
 		}
 	}
 	for _, p := range out {
